@@ -81,6 +81,7 @@ Proof.
   destruct o; cbn [e2e_ops fst]; try (apply settled_nw; repeat (apply NW_cons; [reflexivity|]); reflexivity).
   - destruct (holder cid 0 (ws st)); cbn [fst]; [|reflexivity].
     apply settled_nw. apply NW_cons; reflexivity.
+  - apply settled_nw, NW_map. intros [|]; reflexivity.
   - apply settled_nw, kill_nw.
   - apply settled_nw. apply NW_app; [apply kill_nw|]. apply NW_cons; reflexivity.
 Qed.
